@@ -421,10 +421,13 @@ impl Conv<&CastingType> for ir::Factor {
                     let token: TokenRange = x.based.based_token.token.into();
                     let comptime: Comptime = Conv::conv(context, x.based.as_ref())?;
 
+                    // A cast width beyond `evaluate_size_limit` is reported by
+                    // `check_size`; evaluating with it would overflow `u32` widths.
                     if let Ok(value) = comptime.get_value()
                         && let Some(value) = value.to_usize()
+                        && context.check_size(value, token).is_none()
                     {
-                        let _ = context.check_size(value, token);
+                        return Err(ir_error!(token));
                     }
 
                     return Ok(ir::Factor::Value(comptime));
@@ -433,10 +436,13 @@ impl Conv<&CastingType> for ir::Factor {
                     let token: TokenRange = x.base_less.base_less_token.token.into();
                     let comptime: Comptime = Conv::conv(context, x.base_less.as_ref())?;
 
+                    // A cast width beyond `evaluate_size_limit` is reported by
+                    // `check_size`; evaluating with it would overflow `u32` widths.
                     if let Ok(value) = comptime.get_value()
                         && let Some(value) = value.to_usize()
+                        && context.check_size(value, token).is_none()
                     {
-                        let _ = context.check_size(value, token);
+                        return Err(ir_error!(token));
                     }
 
                     return Ok(ir::Factor::Value(comptime));
@@ -839,8 +845,16 @@ impl Conv<&Based> for Comptime {
         r#type.signed = value.signed();
         r#type.set_concrete_width(Shape::new(vec![width]));
 
+        // An over-limit literal (already reported by `check_size`) has no
+        // usable width: keep it out of constant evaluation.
+        let value = if width.is_some() {
+            ValueVariant::Numeric(value)
+        } else {
+            ValueVariant::Unknown
+        };
+
         Ok(Comptime {
-            value: ValueVariant::Numeric(value),
+            value,
             r#type,
             is_const: true,
             is_global: true,
